@@ -6,11 +6,21 @@ import (
 	"os"
 	"path/filepath"
 	"runtime"
+	"runtime/debug"
+	"runtime/pprof"
 	"sort"
 	"time"
 )
 
 func main() {
+	debug.SetGCPercent(400) // the term tables are long-lived; trade memory for less GC work
+	if pf := os.Getenv("SYMGO_CPUPROFILE"); pf != "" {
+		f, err := os.Create(pf)
+		if err == nil {
+			pprof.StartCPUProfile(f)
+			defer pprof.StopCPUProfile()
+		}
+	}
 	if len(os.Args) < 2 {
 		fmt.Fprintln(os.Stderr, "usage: symgo run|check|replay|selftest ...")
 		os.Exit(2)
